@@ -167,6 +167,12 @@ PickInvArgs(r, c) == {<<(<<1>>), <<>>>>, <<(<<>>), (<<c>>)>>} \cup (IF r >= 3 TH
 CoreOps == {"TransposeInPlace", "ProdMatMat", "AddMat", "Invert", "Pick", "SetRow", "SetValue", "Swap",
             "MatVec", "VecMat", "ProdNormMatMat", "MultiplyRow", "DivideColumn", "Solve", "AddScalar", "Glue"}
 
+\* magnitudes (TLC integers are 32-bit, see PreOK below)
+MaxM(q) == MaxOf({Abs(e) : e \in Entries(q.m)} \cup {q.d})
+MaxV(w) == MaxOf({Abs(e) : e \in Range(w.x)} \cup {w.d})
+Fits3(p, q) == p <= 20000 /\ q <= 20000 /\ p * p <= 100000000 \div q     \* 16 p p q < 2^31
+DetOK(q) == R(q) <= 4 /\ MaxM(q) <= (IF R(q) = 4 THEN 40 ELSE 250)      \* the determinant fits
+
 \* exact quotient tests for the row / column divisions
 RowDivisible(q, x) == \A i \in 1..R(q) : x[i] # 0 /\ \A j \in 1..C(q) : Abs(q.m[i][j]) % Abs(x[i]) = 0
 ColDivisible(q, x) == \A j \in 1..C(q) : x[j] # 0 /\ \A i \in 1..R(q) : Abs(q.m[i][j]) % Abs(x[j]) = 0
@@ -210,8 +216,8 @@ RawCatalogue(s) ==
      \* (without any shift the two blocks would overlap: what the overlap holds is not documented)
 \cup ({Op("Glue", B2I(sr), B2I(sc), 0, 0, <<>>, <<>>) : sr \in BOOLEAN, sc \in BOOLEAN} \ {Op("Glue", 0, 0, 0, 0, <<>>, <<>>)})
      \* inversion and linear solve (square, non singular)
-\cup (IF sq /\ Det(A.m) # 0 THEN {O0("Invert")} ELSE {})
-\cup (IF sq /\ n = r /\ Det(A.m) # 0 THEN {O0("Solve")} ELSE {})
+\cup (IF sq /\ DetOK(A) /\ Det(A.m) # 0 THEN {O0("Invert")} ELSE {})
+\cup (IF sq /\ n = r /\ DetOK(A) /\ Det(A.m) # 0 THEN {O0("Solve")} ELSE {})
      \* register moves
 \cup {O0("Swap"), O0("Copy")}
      \* vector results
@@ -292,12 +298,9 @@ Inexact(o) == o.op \in {"DivideRow", "DivideColumn", "Invert", "Solve"}
 \* TLC integers are 32-bit: every register stays below Limit (<= 20000, so that any product of two
 \* terms summed over 4 indices is exact) and the operations with three factors or a determinant
 \* are enabled only on operands small enough for their intermediate values
-MaxM(q) == MaxOf({Abs(e) : e \in Entries(q.m)} \cup {q.d})
-MaxV(w) == MaxOf({Abs(e) : e \in Range(w.x)} \cup {w.d})
-Fits3(p, q) == p <= 20000 /\ q <= 20000 /\ p * p <= 100000000 \div q     \* 16 p p q < 2^31
 PreOK(o, s) ==
   CASE o.op \in {"Invert", "Solve"} ->
-         /\ R(s.A) <= 4 /\ MaxM(s.A) <= (IF R(s.A) = 4 THEN 40 ELSE 250) /\ MaxV(s.v) <= 1000
+         /\ DetOK(s.A) /\ MaxV(s.v) <= 1000
     [] o.op = "ProdNormMatMat" -> Fits3(MaxM(s.A), MaxM(s.B))
     [] o.op = "ProdNormMatVec" -> Fits3(MaxM(s.A), MaxV(s.v))
     [] o.op = "ProdNormMat" -> Fits3(MaxM(s.A), 1)
